@@ -1103,6 +1103,21 @@ class Resolver:
                             rtypes |= self._call_result(f, call)
                         status = "pkg-by-name"
             return callees, rtypes, status
+        if isinstance(fn, ast.Call) and isinstance(fn.func, ast.Name) and \
+                fn.func.id == "type" and len(fn.args) == 1:
+            # type(x)(...): constructor of x's class (and subclasses)
+            for t in self.types(fn.args[0]):
+                c = self.cls_of(t)
+                if c is None:
+                    continue
+                for k in self.m.subclasses(c):
+                    init = k.find_method("__init__")
+                    if init is not None and init not in callees:
+                        callees.append(init)
+                    rtypes.add(k.name)
+                status = "ctor"
+            if callees or rtypes:
+                return callees, rtypes, status
         # call of a call result / subscript: _operator_map[op](a, b)
         self.types(fn)
         if isinstance(fn, ast.Subscript) and len(call.args) == 2:
